@@ -310,6 +310,9 @@ class Frame:
         self.loops: tuple = ()
         self.self_class: Optional[str] = None
         self.fell_off_end = False
+        self.types: Dict[T, str] = {}  # term -> class qualname (static receiver type)
+        self.caller: Optional["Frame"] = None
+        self.exact_self = False  # self is exactly self_class (no subclasses)
 
     def lookup(self, nm: str) -> Optional[T]:
         f = self
@@ -348,6 +351,7 @@ class Evaluator:
         self.line_of: Dict[int, int] = {}  # term uid -> first line seen
         self._depth = 0
         self.unknown_names: List[Tuple[str, str, int]] = []
+        self.exact_types: Dict[T, str] = {}  # receiver term -> exactly this class
 
     # ----------------------------------------------------------------- events
     def emit(self, frame: Frame, kind: str, line: int, data):
@@ -381,11 +385,11 @@ class Evaluator:
                 fr.env.vars[p.name] = sym(p.name)
             t = fr.env.vars[p.name]
             if p.name == "self" and fr.self_class:
-                self.types[t] = fr.self_class
+                fr.types[t] = fr.self_class
             else:
                 c = self.p.annotation_class(fr.mod, p.annotation)
-                if c is not None and t not in self.types:
-                    self.types[t] = c
+                if c is not None and t not in fr.types:
+                    fr.types[t] = c
         self.exec_block(fr, fi.body())
         if not fr.env.terminated:
             fr.fell_off_end = True
@@ -720,7 +724,11 @@ class Evaluator:
         ln = getattr(node, "lineno", None)
         if ln is not None:
             self.note_line(t, ln)
+        if self.record_terms is not None:
+            self.record_terms.append((t, ln or 0, fr))
         return t
+
+    record_terms: Optional[list] = None
 
     def ex_Constant(self, fr, n):
         return const(n.value)
@@ -790,7 +798,12 @@ class Evaluator:
     def ex_Subscript(self, fr, n):
         base = self.eval(fr, n.value)
         idx = self.eval_index(fr, n.slice)
-        return getitem(base, idx)
+        r = getitem(base, idx)
+        if self.emit_loads and idx.op == "const" and isinstance(idx.args[0], str):
+            self.emit(fr, "load", n.lineno, (base, idx.args[0], r))
+        return r
+
+    emit_loads = False
 
     def ex_Slice(self, fr, n):
         return self.eval_index(fr, n)
@@ -932,10 +945,120 @@ class Evaluator:
             r = self.inline_closure(fr, f, args, kws, line)
             if r is not None:
                 return r
+        if self.inline_policy is not None and self._depth < self.MAX_INLINE_DEPTH \
+                and f.op in ("attr", "fn"):
+            cands = self.resolve_callees(f, fr)
+            if cands and len(cands) == 1:
+                callee, rc = cands[0]
+                if not callee.qualname.endswith(">") and self.inline_policy(callee, rc, fr):
+                    r = self.inline_function(fr, f, callee, rc, args, kws, line)
+                    if r is not None:
+                        return r
         t = call(f, *args, *kws)
         self.note_line(t, line)
         self.emit(fr, "call", line, t)
+        if self.open_transforms and self._depth < self.MAX_INLINE_DEPTH:
+            self._open_transform(fr, t, line)
         return t
+
+    open_transforms = False
+    inline_policy = None  # callable(callee FuncInfo, receiver class, frame) -> bool
+
+    def inline_function(self, fr: Frame, f: T, callee: FuncInfo, recv_cls: Optional[str],
+                        args: List[T], kws: List[T], line: int) -> Optional[T]:
+        """Evaluate an in-package callee in place with its parameters bound to the
+        argument terms; returns the callee's result term."""
+        from .model import bind_call
+
+        if any(a.op in ("star", "dstar") for a in args + kws):
+            return None
+        kwd = {k.args[0]: k.args[1] for k in kws if k.op == "kw"}
+        bound_self = f.op == "attr" and not callee.is_staticmethod
+        ok, _, mapping = bind_call(callee, len(args), list(kwd), bound_self)
+        if not ok:
+            return None
+        binding: Dict[str, T] = {}
+        pp = callee.pos_params()
+        if bound_self and pp:
+            binding[pp[0].name] = f.args[0]
+        for pname, m in mapping.items():
+            binding[pname] = args[m[1]] if m[0] == "pos" else kwd[m[1]]
+        sub = self.new_frame(callee, None, None)
+        if bound_self:
+            recv = f.args[0]
+            if recv is sym("self") and fr.self_class:
+                sub.self_class = fr.self_class
+                sub.exact_self = self._frame_exact(fr)
+            else:
+                sub.self_class = recv_cls or self.static_type(recv, fr) or callee.cls
+                sub.exact_self = recv in self.exact_types
+        sub.caller = fr
+        for prm in callee.params:
+            if prm.name in binding:
+                sub.env.vars[prm.name] = binding[prm.name]
+            elif prm.default is not None:
+                sub.env.vars[prm.name] = self.eval(sub, prm.default)
+            else:
+                sub.env.vars[prm.name] = sym(prm.name)
+            t = sub.env.vars[prm.name]
+            if prm.name == "self" and sub.self_class:
+                sub.types[t] = sub.self_class
+            else:
+                c = self.static_type(t, fr) or self.p.annotation_class(sub.mod, prm.annotation)
+                if c is not None:
+                    sub.types[t] = c
+        sub.path, sub.loops = fr.path, fr.loops
+        self._depth += 1
+        self.emit(fr, "enter_call", line, (callee, tuple(binding.items())))
+        try:
+            self.exec_block(sub, callee.body())
+        finally:
+            self._depth -= 1
+        r = self.result(sub)
+        self.emit(fr, "exit_call", line, (callee, r))
+        return r
+
+    def _open_transform(self, fr: Frame, t: T, line: int):
+        """Walk the bodies of closures handed to scan / vmap / jvp / vjp so that the
+        calls inside them are seen (their events are emitted in place)."""
+        sc = match_scan(t)
+        if sc is not None:
+            f, init, xs, length = sc
+            if f.op == "closure":
+                self.emit(fr, "scan_enter", line, t)
+                r = self.inline_closure(fr, f, [mk("scan_carry", init, t.uid), mk("scan_x", xs, t.uid)],
+                                        [], line)
+                self.emit(fr, "scan_exit", line, (t, r))
+            return
+        vm = match_vmap(t)
+        if vm is not None:
+            f, in_axes, vargs = vm
+            if f.op == "closure":
+                axes = None
+                if in_axes is not None and in_axes.op in ("tuple", "list"):
+                    axes = list(in_axes.args)
+                margs = []
+                for i, a in enumerate(vargs):
+                    mapped = True
+                    if axes is not None and i < len(axes) and is_const(axes[i], None):
+                        mapped = False
+                    margs.append(mk("vmap_elem", a, t.uid) if mapped else a)
+                self.emit(fr, "vmap_enter", line, t)
+                r = self.inline_closure(fr, f, margs, [], line)
+                self.emit(fr, "vmap_exit", line, (t, r))
+            return
+        fn = func_name(t)
+        if fn in ("jax.jvp", "jax.vjp"):
+            _, pos, kws = call_parts(t)
+            if pos and transparent(pos[0]).op == "closure":
+                f = transparent(pos[0])
+                if fn == "jax.jvp" and len(pos) >= 2 and pos[1].op in ("tuple", "list"):
+                    prim = list(pos[1].args)
+                else:
+                    prim = list(pos[1:])
+                self.emit(fr, "ad_enter", line, t)
+                r = self.inline_closure(fr, f, prim, [], line)
+                self.emit(fr, "ad_exit", line, (t, r))
 
     def inline_closure(self, fr: Frame, f: T, args: List[T], kws: List[T], line: int) -> Optional[T]:
         clo = self.closures[f.args[0]]
@@ -988,8 +1111,26 @@ class Evaluator:
         return r
 
     # ------------------------------------------------------ callee resolution
-    def static_type(self, t: T) -> Optional[str]:
-        return self.types.get(t)
+    def _frame_exact(self, fr: Optional[Frame]) -> bool:
+        while fr is not None:
+            if fr.exact_self:
+                return True
+            fr = fr.parent
+        return False
+
+    def static_type(self, t: T, fr: Optional[Frame] = None) -> Optional[str]:
+        if t in self.exact_types:
+            return self.exact_types[t]
+        c = None
+        f = fr
+        while f is not None and c is None:
+            c = f.types.get(t)
+            f = f.parent
+        if c is None:
+            c = self.types.get(t)
+        if c is None and t.op == "call" and t.args[0].op == "cls":
+            return t.args[0].args[0]
+        return c
 
     def resolve_callees(self, f: T, fr: Optional[Frame] = None) -> Optional[List[Tuple[FuncInfo, Optional[str]]]]:
         """Possible in-package callees of function term f: list of (FuncInfo, receiver class).
@@ -1000,11 +1141,10 @@ class Evaluator:
             return [(fi, None)] if fi else None
         if f.op == "cls":
             q = f.args[0]
-            init = self.p.lookup_method(q, "__init__")
-            return [(init, q)] if init else []
+            return [(self.p.init_signature(q), q)]
         if f.op == "attr":
             recv, meth = f.args
-            c = self.static_type(recv)
+            c = self.static_type(recv, fr)
             if c is None and recv.op == "call" and recv.args[0].op == "name" and \
                     recv.args[0].args[0] == "builtins.super" and fr is not None and fr.self_class:
                 # super().m(...) -> next in MRO after the class that lexically owns the frame
@@ -1026,7 +1166,25 @@ class Evaluator:
                 return None
             out = []
             seen = set()
-            for sc in self.p.subclasses(c):
+            cands = self.p.subclasses(c)
+            if recv in self.exact_types:
+                cands = [self.exact_types[recv]]
+            elif recv is sym("self") and fr is not None and self._frame_exact(fr):
+                cands = [c]
+            elif recv is sym("self") and fr is not None and fr.fi is not None and fr.fi.cls:
+                # `self` can only be an instance of a class for which the calling
+                # method is the one its MRO resolves
+                caller = fr.fi
+                cname = caller.dispatch_of or caller.name
+                keep = []
+                for sc in cands:
+                    m = self.p.lookup_method(sc, cname)
+                    if m is None:
+                        continue
+                    if m is caller or (caller.dispatch_of and caller in self.p.lookup_dispatch(sc, cname)):
+                        keep.append(sc)
+                cands = keep or cands
+            for sc in cands:
                 fi = self.p.lookup_method(sc, meth)
                 if fi is None:
                     continue
